@@ -219,7 +219,10 @@ def drive_spline_eval_funcs(m, tier, part=0):
 
 def drive_cubic_uniform_spline_eval_funcs(m, tier, part=0):
     import numpy as np
-    for (xmin, dx, nc) in ((0.0, 1.0, 3), (0.3, 0.1, 4), (-3.0, 2.0, 7), (0.0, 0.25, 5)):
+    import math
+    # incl. non-dyadic cell sizes with many cells: cell edges whose float value falls just below / above a multiple of dx
+    for (xmin, dx, nc) in ((0.0, 1.0, 3), (0.3, 0.1, 4), (-3.0, 2.0, 7), (0.0, 0.25, 5), (0.0, 2 * math.pi / 33, 33), (0.1, 14.4 / 29, 29), (-7.32, 14.64 / 19, 19),
+                           (0.0, 2 * math.pi / 101, 101)):
         xmax = xmin + dx * nc
         kn = np.array([xmin, xmax, dx, float(nc)])
         X = _xalpha(np.linspace(xmin, xmax, nc + 1))
@@ -239,7 +242,7 @@ def drive_cubic_uniform_spline_eval_funcs(m, tier, part=0):
             y = np.full(len(X), np.nan)
             m.cu_eval_spline_1d_vector(X, kn, 3, c, y, der)
             yield ('cu_eval_spline_1d_vector', nc, dx, der), y
-    for (a, b) in (((0.0, 1.0, 3), (0.3, 0.1, 4)), ((-3.0, 2.0, 7), (0.0, 0.25, 5)), ((0.0, 0.25, 5), (0.0, 1.0, 3))):
+    for (a, b) in (((0.0, 1.0, 3), (0.3, 0.1, 4)), ((-3.0, 2.0, 7), (0.0, 0.25, 5)), ((0.0, 0.25, 5), (0.0, 1.0, 3)), ((0.0, 2 * math.pi / 33, 33), (0.1, 14.4 / 13, 13))):
         k1 = np.array([a[0], a[0] + a[1] * a[2], a[1], float(a[2])])
         k2 = np.array([b[0], b[0] + b[1] * b[2], b[1], float(b[2])])
         X = _xalpha(np.linspace(k1[0], k1[1], a[2] + 1))
